@@ -487,6 +487,13 @@ func (self *Fork) OutParams() *syntax.OutParams {
 	return self.node.call.Callable().GetOutParams()
 }
 
+// Get the type of the fork's outputs, as a struct.
+func (self *Fork) outsType() syntax.Type {
+	return self.node.top.types.Get(syntax.TypeId{
+		Tname: self.node.call.Call().DecId,
+	})
+}
+
 func (self *Fork) kill(message string) {
 	if state, _ := self.split_metadata.getState(); state == Queued || state == Running {
 		self.split_metadata.WriteErrorString(message)
@@ -753,7 +760,8 @@ func (self *Fork) removeEmptyFileArgs(outs LazyArgumentMap) {
 		return
 	} else {
 		for arg := range self.fileArgs {
-			if val := outs.jsonPath(arg); len(getMaybeFileNames(val)) == 0 {
+			if val := outs.typedJsonPath(arg, self.outsType(),
+				self.node.top.types); len(getMaybeFileNames(val)) == 0 {
 				self.removeFileArg(arg)
 			}
 		}
